@@ -125,6 +125,7 @@ def tlc(module, cfg_text, env=None, workers=1, timeout=1800, simulate=None, dept
     cmd = ["java", "-XX:+UseParallelGC", "-XX:ParallelGCThreads=2", "-XX:CICompilerCount=2", "-XX:TieredStopAtLevel=4", "-Xmx" + mem, "-Xss64m"]
     if deque:
         cmd.append("-Dtlc2.tool.queue.IStateQueue=StateDeque")
+    cmd.append("-Djava.io.tmpdir=" + d)      # TLC leaves an empty tlc-<n> directory per run in the JVM's temporary directory: keep it in the scratch
     cmd += ["-cp", "/opt/veriftools/tla/tla2tools.jar:/opt/veriftools/tla/CommunityModules-deps.jar", "tlc2.TLC",
             "-workers", str(workers), "-metadir", os.path.join(d, "meta"), "-noGenerateSpecTE",
             "-config", module + ".cfg"]
